@@ -272,6 +272,14 @@ def malformed_texts(ctx, n):
     return out
 
 
+E2E = [
+    {"main.oal": 'use "lib.oal" as l;\nlet local = { \'id! num };\nres /items on get -> <l.item>;\nres /locals on get -> <local>;\n',
+     "lib.oal": "// é€😉 a comment line with 2-, 3- and 4-byte characters\r\nlet item = { 'name! str };\r\n"},
+    {"main.oal": '// 😉😉\n\n\nuse "deep/lib.oal" as l;\nres /a on get -> <l.a> :: <status=404, l.b>;\n',
+     "deep/lib.oal": "let a = num; let b = {\n  'x a,\n  'y [b] };\n"},
+]
+
+
 def check(ctx):
     ctx.proof = core.proof_stage("C16", thorough=ctx.thorough)
     ok, out = core.ensure_runner()
@@ -294,13 +302,27 @@ def check(ctx):
     if ctx.replay:
         import json
         v = json.load(open(ctx.replay))
-        run_texts(ctx, [v["input"]["text"]], label="replay")
+        if "files" in v["input"]:
+            core.ensure_repo_bins()
+            from . import c17
+            c17.check_workspace(ctx, v["input"]["files"], "c16replay")
+        else:
+            run_texts(ctx, [v["input"]["text"]], label="replay")
         return core.finish(ctx)
     run_texts(ctx, list(texts_upto(L)))
     run_texts(ctx, malformed_texts(ctx, 3000 if ctx.thorough else 600), label="malformed")
     if ctx.broken and not ctx.violations and not ctx.thorough:
         # search deeper on the implementation alone before giving up
         run_texts(ctx, [t for t in texts_upto(L + 1) if sum(1 for _ in t) > 0 and len(t) >= L], with_model=False, label="search")
+    # end to end: the ranges the language server sends for spans of another document (converted with that document's text)
+    # select the span's text in the client's copy: two workspaces whose modules have different line layouts
+    ok2, out2 = core.ensure_repo_bins()
+    if ok2:
+        from . import c17
+        for k, files in enumerate(E2E):
+            c17.check_workspace(ctx, files, "c16e2e%d" % k)
+    else:
+        ctx.broken.append("build of the binaries of /repo failed: " + out2[-300:])
     ctx.cov["exhaustive"] = True
     ctx.cov["rule"] = ("every text over the units {a, e-acute(2B), euro(3B), winking-face(4B, 2 UTF-16 units), LF, CRLF} "
                        "of at most %d units; for each: every offset 0..len+2 (utf8_to_position, utf8_to_char_index), every "
